@@ -50,6 +50,9 @@ pub struct Case {
     pub subset: Subset,
     pub root_chain: bool,
     pub bad: Bad,
+    /// drive the copy through the `tuftool clone` binary (source served from disk) instead of the library
+    #[serde(default)]
+    pub via_cli: bool,
 }
 
 const NAMES: [&str; 8] = ["a.txt", "b.bin", "dir/c.txt", "deep/er/d.dat", "x/../resolved.txt", "dots..name", "tilde~1", "plus+sign"];
@@ -219,12 +222,68 @@ pub fn prop_with(case: &Case, known_flush: bool) -> Outcome {
     std::fs::create_dir_all(sb.join("other")).unwrap();
     std::fs::write(sb.join("other").join("bystander"), b"bystander").unwrap();
     let before = snapshot_tree(sb);
-    let res = crate::rt::block_on(async {
-        match &requested {
-            None => repo.cache(&meta_out, &targets_out, None::<&[&str]>, case.root_chain).await,
-            Some(v) => repo.cache(&meta_out, &targets_out, Some(v.as_slice()), case.root_chain).await,
-        }
-    });
+    // `tuftool clone` always caches the root chain and treats an empty name list as "all"
+    let via_cli = case.via_cli && case.subset != Subset::Empty;
+    let root_chain = case.root_chain || via_cli;
+    let res: Result<(), String> = if via_cli {
+        o.label("via:tuftool-clone");
+        (|| -> Result<(), String> {
+            let bin = super::c20::tuftool()?;
+            // the same source, on disk
+            let srcdir = sb.join("source");
+            let sm = srcdir.join("metadata");
+            let st = srcdir.join("targets");
+            std::fs::create_dir_all(&sm).unwrap();
+            std::fs::create_dir_all(&st).unwrap();
+            for (f, b) in &src.built.meta {
+                std::fs::write(sm.join(f), b).unwrap();
+            }
+            for (f, b) in &src.built.target_files {
+                let pth = st.join(f);
+                std::fs::create_dir_all(pth.parent().unwrap()).unwrap();
+                std::fs::write(pth, b).unwrap();
+            }
+            if let Some((v, bytes)) = &damaged {
+                let pth = st.join(file_of(v));
+                if matches!(case.bad, Bad::Missing(_)) {
+                    let _ = std::fs::remove_file(&pth);
+                } else {
+                    std::fs::write(&pth, bytes).unwrap();
+                }
+            }
+            let rootf = sb.join("source").join("shipped-root.json");
+            std::fs::write(&rootf, src.built.shipped(1)).unwrap();
+            let mut cmd = std::process::Command::new(bin);
+            cmd.arg("clone")
+                .arg("--root").arg(&rootf)
+                .arg("--metadata-url").arg(url::Url::from_directory_path(&sm).unwrap().as_str())
+                .arg("--targets-url").arg(url::Url::from_directory_path(&st).unwrap().as_str())
+                .arg("--metadata-dir").arg(&meta_out)
+                .arg("--targets-dir").arg(&targets_out);
+            if let Some(v) = &requested {
+                for n in v {
+                    cmd.arg("-n").arg(n);
+                }
+            }
+            cmd.env("RUST_BACKTRACE", "0");
+            let outp = cmd.output().map_err(|e| format!("cannot run tuftool: {e}"))?;
+            if outp.status.success() {
+                Ok(())
+            } else {
+                Err(format!("tuftool clone exited {:?}: {}", outp.status.code(), String::from_utf8_lossy(&outp.stderr).lines().take(4).collect::<Vec<_>>().join(" | ")))
+            }
+        })()
+    } else {
+        crate::rt::block_on(async {
+            match &requested {
+                None => repo.cache(&meta_out, &targets_out, None::<&[&str]>, root_chain).await,
+                Some(v) => repo.cache(&meta_out, &targets_out, Some(v.as_slice()), root_chain).await,
+            }
+        })
+        .map_err(|e| e.to_string())
+    };
+    // the source directory of the CLI variant is not part of the sandbox comparison
+    let _ = std::fs::remove_dir_all(sb.join("source"));
     // what the statement is about is what a client finds right after `cache` returned
     let after = snapshot_tree(sb);
     o.label(format!("subset:{}", match case.subset { Subset::All => "all", Subset::Some(_) => "some", Subset::Empty => "empty", Subset::Unknown => "unknown" }));
@@ -300,7 +359,7 @@ pub fn prop_with(case: &Case, known_flush: bool) -> Outcome {
         }
     }
     // root chain
-    if case.root_chain {
+    if root_chain {
         for v in 1..=src.final_root {
             let rel = format!("cache/metadata/{v}.root.json");
             match after.get(&rel) {
@@ -317,7 +376,7 @@ pub fn prop_with(case: &Case, known_flush: bool) -> Outcome {
         }
     }
     // load the copy
-    let root_for_copy = if case.root_chain { src.built.shipped(1) } else { src.built.root_bytes[&src.final_root].clone() };
+    let root_for_copy = if root_chain { src.built.shipped(1) } else { src.built.root_bytes[&src.final_root].clone() };
     let copy = crate::rt::block_on(
         tough::RepositoryLoader::new(&root_for_copy, url::Url::from_directory_path(&meta_out).unwrap(), url::Url::from_directory_path(&targets_out).unwrap())
             .transport(tough::FilesystemTransport)
@@ -346,7 +405,7 @@ pub fn prop_with(case: &Case, known_flush: bool) -> Outcome {
         }
     };
     let v = |r: &tough::Repository| (r.root().signed.version.get(), r.timestamp().signed.version.get(), r.snapshot().signed.version.get(), r.targets().signed.version.get());
-    if v(&copy) != v(&repo) && case.root_chain {
+    if v(&copy) != v(&repo) && root_chain {
         o.fail(format!("role versions of the copy {:?} differ from the source {:?}", v(&copy), v(&repo)));
         return o;
     }
@@ -392,6 +451,13 @@ pub fn prop_with(case: &Case, known_flush: bool) -> Outcome {
 }
 
 fn case_strategy() -> impl Strategy<Value = Case> {
+    (case_strategy_lib(), prop::bool::weighted(0.2)).prop_map(|(mut c, cli)| {
+        c.via_cli = cli;
+        c
+    })
+}
+
+fn case_strategy_lib() -> impl Strategy<Value = Case> {
     (
         any::<bool>(),
         1u8..=3,
@@ -402,7 +468,7 @@ fn case_strategy() -> impl Strategy<Value = Case> {
         any::<bool>(),
         prop_oneof![4 => Just(Bad::None), 1 => any::<u16>().prop_map(Bad::Corrupt), 1 => any::<u16>().prop_map(Bad::Oversize), 1 => any::<u16>().prop_map(Bad::Missing)],
     )
-        .prop_map(|(consistent, roots, rotate_online, targets, roles, subset, root_chain, bad)| Case { consistent, roots, rotate_online, targets, roles, subset, root_chain, bad })
+        .prop_map(|(consistent, roots, rotate_online, targets, roles, subset, root_chain, bad)| Case { consistent, roots, rotate_online, targets, roles, subset, root_chain, bad, via_cli: false })
 }
 
 pub fn check(ctx: &Ctx) -> Vec<PartReport> {
@@ -422,6 +488,7 @@ pub fn check(ctx: &Ctx) -> Vec<PartReport> {
                 ("root-chain-in-source", n as u64 / 3),
                 ("subset:some", n as u64 / 5),
                 ("unknown-target-refused", n as u64 / 40),
+                ("via:tuftool-clone", n as u64 / 10),
             ],
         },
     )]
